@@ -9,6 +9,7 @@ From Coq Require Import List NArith ZArith Bool Lia.
 From Cao Require Import ListUtil CheckUtil Bits Stacks Bytecode Compiler CompilerProofs CompilerWf CompilerOk CardAst.
 From Cao Require Import Vm VmProofs C04VmProofs C01SimVm C01SimVmLocals C01SimDefs C01SimRef C01SimF1 C01SimDefs2 C01SimF2.
 From Cao Require Import C01SimDefs4 C01SimDefs5 C01SimRef5 C01SimF5 C01SimVm9.
+From Cao Require C01SimDefs9.
 From Cao Require RefSem.
 Import ListNotations.
 Local Open Scope N_scope.
@@ -147,6 +148,47 @@ Proof.
       * destruct (@ex_read_global_err F bld P cap (top :: rest) hp None [] (bytes pre) id stk gv Hc Hid) as [nm Herr].
         { intros w Hw. rewrite Hw in Hr. discriminate. }
         exists 0%nat, (bytes pre, stk, gv), (Some nm). split; [cbn; lia|]. split; [constructor | auto].
+Qed.
+
+(* the arguments of a call, left to right: their values pile up on the stack (first argument lowest) *)
+Lemma args_sim9 args : forallb expr_f1 args = true ->
+  forall pre stk R g gv,
+    seg' pre (C01SimDefs9.code_args9 T (lnames R) args) ->
+    (forall n, In n (flat_map (expr_gnames (lnames R)) args) -> In n names /\ nm_find (handle_of_bytes n) T <> None) ->
+    holds9 (N.to_nat (fr_off top)) R stk -> grel' g gv -> gsimple (R ++ g) ->
+    (S (length stk + C01SimDefs9.depth_args args) < cap)%nat ->
+    match C01SimDefs9.evs9 (R ++ g) args with
+    | Some vs => steps' (length (C01SimDefs9.code_args9 T (lnames R) args)) (bytes pre, stk, gv)
+                        (bytes (pre ++ C01SimDefs9.code_args9 T (lnames R) args), stk ++ map to_vm vs, gv) /\
+                 length vs = length args
+    | None => exists k c1 nm, steps' k (bytes pre, stk, gv) c1 /\ exec_err' c1 (EVarNotFound nm) /\ snd c1 = gv
+    end.
+Proof.
+  induction args as [|a r IH]; intros Hargs pre stk R g gv Hseg Hnames Hloc Hrel Hsimp Hroom.
+  - cbn. rewrite !app_nil_r. split; [constructor | reflexivity].
+  - cbn [forallb] in Hargs. apply andb_true_iff in Hargs. destruct Hargs as [Ha Hr].
+    cbn [C01SimDefs9.code_args9 flat_map C01SimDefs9.evs9 C01SimDefs9.depth_args] in *.
+    fold (C01SimDefs9.code_args9 T (lnames R) r) in *.
+    set (ca := code_expr5 T (lnames R) a) in *. set (cr := C01SimDefs9.code_args9 T (lnames R) r) in *.
+    assert (Hna : forall n, In n (expr_gnames (lnames R) a) -> In n names /\ nm_find (handle_of_bytes n) T <> None)
+      by (intros n Hn; apply Hnames, in_or_app; auto).
+    assert (Hnr : forall n, In n (flat_map (expr_gnames (lnames R)) r) -> In n names /\ nm_find (handle_of_bytes n) T <> None)
+      by (intros n Hn; apply Hnames, in_or_app; auto).
+    pose proof (expr_f1_sim9 a Ha pre stk R g gv (seg_app_l _ _ _ _ Hseg) Hna Hloc Hrel Hsimp ltac:(lia)) as Hea.
+    fold ca in Hea.
+    destruct (ev (R ++ g) a) as [v|] eqn:Ev.
+    + pose proof (IH Hr (pre ++ ca) (stk ++ [to_vm v]) R g gv (seg_app_r _ _ _ _ Hseg) Hnr (holds9_snoc _ _ _ _ Hloc) Hrel Hsimp
+                     ltac:(rewrite app_length; cbn [length]; lia)) as Her. fold cr in Her.
+      destruct (C01SimDefs9.evs9 (R ++ g) r) as [vs|].
+      * cbv beta iota. destruct Her as [Her Hlen]. split; [|cbn [length]; rewrite Hlen; reflexivity].
+        rewrite app_length. eapply steps_trans; [exact Hea|].
+        rewrite <- app_assoc in Her. cbn [map]. rewrite app_assoc.
+        replace ((stk ++ [to_vm v]) ++ map to_vm vs) with (stk ++ to_vm v :: map to_vm vs) in Her
+          by (rewrite <- app_assoc; reflexivity).
+        replace (pre ++ ca ++ cr) with (pre ++ ca ++ cr) by reflexivity. rewrite <- app_assoc. exact Her.
+      * cbv beta iota. destruct Her as (k & c1 & nm & Hst & Herr & Hg).
+        exists (length ca + k)%nat, c1, nm. split; [eapply steps_trans; eauto | auto].
+    + cbv beta iota. destruct Hea as (k & c1 & nm & _ & Hst & Herr & Hg). exists k, c1, nm. auto.
 Qed.
 
 End Frame.
